@@ -277,6 +277,53 @@ fn observe(ev: &mut Ev, dir: &Path, c: &Case12) -> CaseResult {
     ev.count(if link { "file-on-disk/symlink-to-regular-file" } else { "file-on-disk/regular-file" });
     let full = path.as_os_str().as_bytes().to_vec();
 
+    // How the file is looked up: by its full path, or - one case in eight, in
+    // the single-threaded engines only (the working directory belongs to the
+    // whole process) - by the path relative to the working directory, which
+    // is the scenario directory for the duration of the case.  The distinfo
+    // then also records "<name of the working directory>/<that path>": not a
+    // trailing sub-path of the lookup path, so it plays no part.
+    struct CwdGuard(Option<std::path::PathBuf>);
+    impl Drop for CwdGuard {
+        fn drop(&mut self) {
+            if let Some(d) = self.0.take() {
+                let _ = std::env::set_current_dir(d);
+            }
+        }
+    }
+    let mut guard = CwdGuard(None);
+    let mut decoy: Option<Vec<u8>> = None;
+    let relative_route = !cfg!(miri)
+        && !crate::fw::MT_MODE.load(std::sync::atomic::Ordering::Relaxed)
+        && crate::rng::hash_strs(&[b"relroute", &c.rel, c.label.as_bytes()]) % 8 == 1;
+    let (path, full) = if relative_route {
+        match (std::env::current_dir(), dir.file_name()) {
+            (Ok(old), Some(dn)) if std::env::set_current_dir(dir).is_ok() => {
+                guard.0 = Some(old);
+                let mut d = dn.as_bytes().to_vec();
+                d.push(b'/');
+                d.extend_from_slice(&c.rel);
+                decoy = Some(d);
+                (std::path::PathBuf::from(OsStr::from_bytes(&c.rel)), c.rel.clone())
+            }
+            _ => (path, full),
+        }
+    } else {
+        (path, full)
+    };
+    ev.count(if guard.0.is_some() { "lookup-path/relative-to-the-working-directory" } else { "lookup-path/full" });
+    let with_decoy: Case12;
+    let c: &Case12 = match &decoy {
+        Some(d) if !c.recs.iter().any(|r| &r.name == d) => {
+            let mut m = c.clone();
+            let kind = classify(last_component(&c.rel)).unwrap_or(Kind::Dist);
+            m.recs.push(Rec { name: d.clone(), kind, size: Some(c.disk.len() as u64 + 7), sums: vec![] });
+            with_decoy = m;
+            &with_decoy
+        }
+        _ => c,
+    };
+
     // Under which name the file is recorded: as generated (relative, possibly
     // below DIST_SUBDIR directories) or - one case in eight - under the very
     // path it is looked up by (the whole path is its own last trailing
@@ -539,6 +586,26 @@ fn scenario(r: &mut Rng, sc: u64) -> Vec<Case12> {
         }
         p.extend_from_slice(&base);
         if classify(&p) == Some(Kind::Dist) {
+            used.push(p.clone());
+            p
+        } else {
+            used.push(base.clone());
+            base
+        }
+    } else if kind == Kind::Patch && r.chance(1, 4) {
+        // a patch below directories (every component named like a patch, so
+        // that whole-name and last-component readings of the rule agree): found
+        // from full paths by its trailing sub-paths like any other entry
+        let mut used2 = vec![];
+        let base = gd::fresh_name(r, Kind::Patch, false, true, &mut used2);
+        let mut p = vec![];
+        for _ in 0..r.range(1, 2) {
+            p.extend_from_slice(b"patch-");
+            p.extend_from_slice(&gd::raw_name(r, 1, 4, true));
+            p.push(b'/');
+        }
+        p.extend_from_slice(&base);
+        if classify(&p) == Some(Kind::Patch) && crate::oracle::distinfo::path_plain(&p) {
             used.push(p.clone());
             p
         } else {
